@@ -2,20 +2,26 @@
 
 Correspondence
   * `lemkef`  : the model at IEEE doubles, same operation order as the Numba kernels -> success, status,
-                num_iter, final basis and the bits of z compared EXACTLY on every case.
-  * `lemke`   : the model at exact rationals (same tolerances as the code, or 0 = the theorems' setting):
-                success/status/num_iter/basis compared exactly whenever the exact run met no tie in a ratio
-                test (`ties=0`); z inside an envelope.  On degenerate runs (ties>0) floating-point noise may
-                legitimately break a tie differently (absolute tie tolerance 1e-15): such divergences are
+                num_iter, final basis and the bits of z compared EXACTLY on every case (all tolerance settings,
+                including tolerance 0 and out-of-domain covering vectors; `ERR:ZeroDivisionError` for d_i == 0).
+  * `lemke`   : the model at exact rationals (same tolerances as the code, and tolerance 0 = the theorems'
+                setting on exactly representable data): success/status/num_iter/basis compared exactly whenever
+                the exact run met no tie in a ratio test (`ties=0`); z inside an envelope.  On degenerate runs
+                (ties>0) floating-point noise may legitimately break a tie differently: such divergences are
                 counted, not alarmed -- the bit-exact `lemkef` comparison covers those cases.
   * `firstrowf` / `firstrow`: the hand-written first ratio test; the code's choice is read off the basis
                 after a `max_iter=1` call (the row holding the artificial variable).
+  The tolerances are read from the library (`PivOptions()` = 1e-7 / 1e-13, *not* the constants of pivoting.py);
+  the model is queried with the iteration limit cut to num_iter+1000 (theorem `lemke_fuel_irrelevant`).
 Spec run (model independent, Fractions on the exact rationals denoted by the doubles given to the code)
-  * success  => z >= 0, Mz+q >= 0, z.(Mz+q) = 0 within the envelope;
-  * classes PD / P / strictly copositive: status must be 0 (default max_iter);
-  * class PSD: status 2 only if the LCP has no solution (exact enumeration of complementary bases, and of
-    all bases of [I,-M] when a complementary basis matrix is singular);
+  * success  => z >= 0, Mz+q >= 0, z.(Mz+q) = 0 within the envelope (every n, d, tolerance != 0);
+  * first pivot row minimises q_i/d_i;
+  * classes PD / P / strictly copositive: status must be 0 (default max_iter, default tolerances);
+  * class PSD: status 2 only if the LCP has no solution (exact enumeration of the 2^n complementary bases, and
+    of all C(2n,n) bases of [I,-M] when a complementary basis matrix is singular), default tolerances;
   * general class: only the first clause (solvable-but-ray cases are counted).
+Generators: corpus (harness/corpus/c11_*.json) first, the test-suite instances, random classes x data kinds,
+degenerate 0/+-1 problems, n in 7..10 (5%), int64 arrays, small max_iter, three tolerance settings, bad d.
 """
 import itertools
 from fractions import Fraction
@@ -26,8 +32,9 @@ from .common import Case, fx, fxs, fxm, parse_rats, parse_ints
 
 FILES = ["quantecon/optimize/lcp_lemke.py", "quantecon/optimize/pivoting.py"]
 
-TOL_PIV = 1e-10
-TOL_RATIO_DIFF = 1e-15
+# tolerance settings exercised: the defaults of linprog_simplex.PivOptions (read from the library at run
+# time), the constants of pivoting.py, and exact zero (the setting of the theorems)
+ALT_TOLS = [(1e-10, 1e-15), (0.0, 0.0)]
 ENV = 1e-8          # rounding envelope (relative to the problem's scale)
 
 
@@ -212,13 +219,15 @@ def gen_q(rng, n, d, real):
 # ----------------------------------------------------------------------------
 # adapters
 
-def call_code(lcp_lemke, PivOptions, M, q, d, max_iter):
+def call_code(lcp_lemke, PivOptions, M, q, d, max_iter, tols=None):
     n = len(q)
     basis = np.full(n, -1, dtype=np.int_)
-    if max_iter is None:
-        res = lcp_lemke(M, q, d, basis=basis)
-    else:
-        res = lcp_lemke(M, q, d, max_iter=max_iter, basis=basis)
+    kw = {}
+    if max_iter is not None:
+        kw["max_iter"] = max_iter
+    if tols is not None:
+        kw["piv_options"] = PivOptions(tol_piv=tols[0], tol_ratio_diff=tols[1])
+    res = lcp_lemke(M, q, d, basis=basis, **kw)
     return res, basis
 
 
@@ -228,8 +237,46 @@ def canon(res, basis, zfmt):
         1 if res.success else 0, int(res.status), int(res.num_iter), b, zfmt(res.z))
 
 
+def _unfx(t):
+    import struct
+    return struct.unpack("<d", struct.pack("<Q", int(t[1:], 16)))[0]
+
+
 def parse_out(s):
     return dict(t.split("=", 1) for t in s.split(" "))
+
+
+def replay(data):
+    """./check C11 --replay <file>: re-run the real code on the recorded input and re-judge it exactly"""
+    from quantecon.optimize.lcp_lemke import lcp_lemke
+    from quantecon.optimize.linprog_simplex import PivOptions
+    r = data.get("replay", data)
+    Mx = np.array(r["M"], dtype=float)
+    q = np.array(r["q"], dtype=float)
+    d = None if r.get("d") is None else np.array(r["d"], dtype=float)
+    kw = {}
+    if r.get("max_iter") is not None:
+        kw["max_iter"] = r["max_iter"]
+    if r.get("tol_piv") is not None:
+        kw["piv_options"] = PivOptions(tol_piv=r["tol_piv"], tol_ratio_diff=r["tol_ratio_diff"])
+    res = lcp_lemke(Mx, q, d, **kw)
+    print("input  M=%s q=%s d=%s %s" % (Mx.tolist(), q.tolist(), None if d is None else d.tolist(), kw))
+    print("code   z=%s success=%s status=%d num_iter=%d" % (res.z.tolist(), res.success, res.status, res.num_iter))
+    Mq = [[Fraction(float(v)) for v in row] for row in Mx]
+    qq = [Fraction(float(v)) for v in q]
+    bad = False
+    if res.success:
+        mz, mw, comp = lcp_residuals(Mq, qq, [Fraction(float(v)) for v in res.z])
+        print("exact  min z=%g  min(Mz+q)=%g  |z.(Mz+q)|=%g" % (float(mz), float(mw), float(comp)))
+        scale = max(1.0, float(np.abs(Mx).max()), float(np.abs(q).max()), float(np.abs(res.z).max()))
+        eps = Fraction(ENV) * Fraction(scale)
+        bad = mz < -eps or mw < -eps or comp > eps * len(q)
+    elif len(q) <= 6:
+        solv, how = lcp_solvable(Mq, qq)
+        print("exact  solvable=%s (%s); class recorded: %s" % (solv, how, r.get("class")))
+        bad = r.get("class") in ("pd", "p", "cop") or (r.get("class") == "psd" and solv and res.status == 2)
+    print("verdict: %s" % ("property violated on this input" if bad else "property holds on this input"))
+    return 1 if bad else 0
 
 
 def run(ctx):
@@ -237,7 +284,7 @@ def run(ctx):
     from quantecon.optimize.linprog_simplex import PivOptions
 
     rng = ctx.rng
-    ctx.rule = ("random (M,q,d), n<=6, classes pd/p/psd/cop/gen x {int, dyadic, float} data, q modes "
+    ctx.rule = ("random (M,q,d), n<=6 (5%: n in 7..10), 12% highly degenerate 0/+-1 problems, classes pd/p/psd/cop/gen x {int, dyadic, float} data, q modes "
                 "{rand, ties in q_i/d_i, >=3 negative ratios non-monotone, q>=0, all negative, zeros, float}, "
                 "d None / ints / dyadic / float, max_iter default or small; plus the 6 instances of the test "
                 "suite; a case is non-trivial when q has a negative entry (the algorithm pivots at least once); "
@@ -246,10 +293,13 @@ def run(ctx):
                            "vs code); solvability decided exactly on the rationals denoted by the doubles" % ENV)
 
     cases = []
-    n_cases = ctx.n(420, 6000)
+    # (an anchor change escalates the quick tier to a mid-size run; the explicit thorough tier is larger)
+    n_cases = 40000 if ctx.tier == "thorough" else ctx.n(1500, 10000)
     classes = ["pd", "p", "psd", "cop", "gen"]
 
-    problems = []   # (cls, real, M, q, d, max_iter, qmode)
+    problems = []   # (cls, real, M, q, d, max_iter, qmode, tols)
+    dflt = PivOptions()
+    DEF_TOLS = (float(dflt.tol_piv), float(dflt.tol_ratio_diff))
 
     # the instances of quantecon/optimize/tests/test_lcp_lemke.py and the docstring
     fixed = [
@@ -282,27 +332,75 @@ def run(ctx):
     fixed.append(("big", Mb.tolist(), qb.tolist(), None))
     for cls, Mx, q, d in fixed:
         problems.append((cls, "int", np.array(Mx, dtype=float), np.array(q, dtype=float),
-                         None if d is None else np.array(d), None, "fixed"))
+                         None if d is None else np.array(d), None, "fixed", None))
+
+    # corpus of past disagreements / findings (runs first)
+    import glob
+    import json
+    import os
+    for path in sorted(glob.glob(os.path.join(ctx.corpus_dir, "c11_*.json"))):
+        for e in json.load(open(path)):
+            problems.append((e["class"], "int", np.array(e["M"], dtype=float), np.array(e["q"], dtype=float),
+                             None if e.get("d") is None else np.array(e["d"], dtype=float), e.get("max_iter"),
+                             "corpus", None if e.get("tols") is None else tuple(e["tols"])))
+            ctx.count("corpus-cases")
 
     while len(problems) < n_cases:
         n = rng.choice([1, 2, 2, 3, 3, 3, 4, 4, 4, 5, 5, 6, 6])
+        u = rng.random()
+        if u < 0.12:
+            # highly degenerate problems: 0/±1 data, many equal ratios -> deep lexicographic tie-breaking
+            kind = rng.choice(["cop01", "gen01", "skew01"])
+            if kind == "cop01":
+                Mx = _imat(rng, n, n, 0, 1)
+                for i in range(n):
+                    Mx[i, i] = 1.0
+                q = -np.ones(n)
+                cls = "cop"
+            elif kind == "gen01":
+                Mx = _imat(rng, n, n, -1, 1)
+                q = np.array([float(rng.choice([-1, -1, 0])) for _ in range(n)])
+                cls = "gen"
+            else:
+                Mx = _skew(rng, n, 1)
+                q = np.array([float(rng.choice([-1, -1, 0, 1])) for _ in range(n)])
+                cls = "psd"
+            mi = None
+            tols = None if rng.random() < 0.7 else rng.choice(ALT_TOLS)
+            problems.append((cls, "int", np.ascontiguousarray(Mx, dtype=float), q, None, mi, "degenerate", tols))
+            continue
+        if u < 0.17:
+            n = rng.choice([7, 8, 9, 10])     # beyond the property's n<=6: correspondence + success clause only
         cls = rng.choice(classes)
         real = rng.choice(["int", "int", "dyadic", "float"])
         Mx = np.ascontiguousarray(gen_matrix(rng, n, cls, real), dtype=float)
         d = gen_d(rng, n, real)
         q, qmode = gen_q(rng, n, d, real)
         mi = None if rng.random() < 0.8 else rng.choice([0, 1, 2, 3, 4, 6])
-        problems.append((cls, real, Mx, q, d, mi, qmode))
+        tols = None if rng.random() < 0.6 else rng.choice(ALT_TOLS)
+        problems.append((cls, real, Mx, q, d, mi, qmode, tols))
 
-    tp_bits, td_bits = fx(TOL_PIV), fx(TOL_RATIO_DIFF)
-
-    for cls, real, Mx, q, d, mi, qmode in problems:
+    for cls, real, Mx, q, d, mi, qmode, tols in problems:
         n = len(q)
-        res, basis = call_code(lcp_lemke, PivOptions, Mx, q, d, mi)
+        if real == "int" and np.all(Mx == np.round(Mx)) and np.all(q == np.round(q)) and rng.random() < 0.15:
+            # the test-suite passes integer arrays: same algorithm on an int64 signature
+            res, basis = call_code(lcp_lemke, PivOptions, Mx.astype(np.int64), q.astype(np.int64), d, mi, tols)
+            ctx.count("dtype:int64-arrays")
+        else:
+            res, basis = call_code(lcp_lemke, PivOptions, Mx, q, d, mi, tols)
+        tol_piv, tol_diff = DEF_TOLS if tols is None else tols
+        tp_bits, td_bits = fx(tol_piv), fx(tol_diff)
+        ctx.count("tols:%s" % ("default" if tols is None else "%g,%g" % tols))
         z = np.array(res.z, dtype=float)
         status = int(res.status)
         dd = np.ones(n) if d is None else d
         mi_eff = 10 ** 6 if mi is None else mi
+        # the model is asked for the same run with the iteration limit cut down to num_iter + 1000 when the
+        # code stopped earlier: by `lemke_fuel_irrelevant` (Properties/C11.lean) a run that ends with status 0 or 2
+        # is the same for every larger limit, so an agreeing model gives the identical answer, while a model that
+        # wrongly cycles is stopped (and reported as a mismatch) instead of burning 10^6 exact pivots
+        if int(res.status) != 1 and mi_eff > int(res.num_iter) + 1000:
+            mi_eff = int(res.num_iter) + 1000
         nontriv = bool((q < 0).any())
         ctx.count("class:%s" % cls)
         ctx.count("data:%s" % real)
@@ -346,25 +444,35 @@ def run(ctx):
                     return "z differs by %g > envelope" % float(abs(u - v))
             return None
 
+        zero_tol = (tol_piv == 0.0)
+        if zero_tol:
+            # the code run with tolerance exactly 0 pivots on rounding noise (an exact 0 that comes out as 1e-17
+            # counts as positive): only the bit-exact Float comparison is meaningful, no exact reference, no spec
+            ctx.count("zero-tolerance-runs(bit-exact comparison only)")
+            continue
         cases.append(Case("C11 lemke %s tolpiv=%s toldiff=%s" % (base, tp_bits, td_bits),
                           canon(res, basis, fxs), nontrivial=nontriv, cmp=cmp_rat, tag="lemke"))
-        if rng.random() < 0.34:
+        if real != "float" and rng.random() < 0.5:
+            # the theorems' setting (tolerances 0) against the code at its tolerances: same path on exactly
+            # representable small data, where distinct ratios differ by far more than the tolerances
             cases.append(Case("C11 lemke %s tolpiv=0 toldiff=0" % base,
                               canon(res, basis, fxs), nontrivial=nontriv, cmp=cmp_rat, tag="lemke-tol0"))
 
         # 3. first ratio test, observed through max_iter=1
         if nontriv and rng.random() < 0.5:
-            r1, b1 = call_code(lcp_lemke, PivOptions, Mx, q, d, 1)
+            r1, b1 = call_code(lcp_lemke, PivOptions, Mx, q, d, 1, tols)
             rows = [i for i in range(n) if b1[i] == 2 * n]
             impl = str(rows[0]) if len(rows) == 1 else "ERR:%s" % rows
             cases.append(Case("C11 firstrowf n=%d q=%s d=%s toldiff=%s" % (n, fxs(q), fxs(dd), td_bits), impl,
                               tag="firstrowf"))
-            cases.append(Case("C11 firstrow n=%d q=%s d=%s toldiff=0" % (n, fxs(q), fxs(dd)), impl,
-                              tag="firstrow-tol0",
-                              cmp=lambda mo, im: None if mo == im else "first pivot row differs"))
+            if tol_diff == 0.0 or real != "float":
+                # exact instance: same choice when the code runs with tolerance 0, or on exactly representable
+                # ratios' data (no near-ties below the tolerance)
+                cases.append(Case("C11 firstrow n=%d q=%s d=%s toldiff=%s" % (n, fxs(q), fxs(dd), td_bits), impl,
+                                  tag="firstrow-rat"))
             # spec: the chosen row minimises q_i/d_i exactly (tolerance 1e-15 absolute)
             rat = [Fraction(float(q[i])) / Fraction(float(dd[i])) for i in range(n)]
-            if len(rows) == 1 and rat[rows[0]] > min(rat) + Fraction(1, 10 ** 12):
+            if len(rows) == 1 and rat[rows[0]] > min(rat) + Fraction(max(tol_diff, 1e-15)) * 2 * n:
                 ctx.spec_fail("first_ratio_test", "first pivot row %d does not minimise q_i/d_i" % rows[0],
                               {"M": Mx.tolist(), "q": q.tolist(), "d": dd.tolist()})
 
@@ -372,7 +480,7 @@ def run(ctx):
         Mq = [[Fraction(float(v)) for v in row] for row in Mx]
         qq = [Fraction(float(v)) for v in q]
         replay = {"class": cls, "M": Mx.tolist(), "q": q.tolist(), "d": None if d is None else d.tolist(),
-                  "max_iter": mi, "z": z.tolist(), "status": status, "num_iter": int(res.num_iter)}
+                  "max_iter": mi, "tol_piv": tol_piv, "tol_ratio_diff": tol_diff, "z": z.tolist(), "status": status, "num_iter": int(res.num_iter)}
         if bool(res.success) != (status == 0):
             ctx.spec_fail("success_status", "success flag and status disagree", replay)
         if res.success:
@@ -390,17 +498,94 @@ def run(ctx):
                     ctx.count("spec:success-verified")
         if mi is None:
             if status == 1:
-                ctx.spec_fail("iteration_limit", "10^6 iterations exhausted (cycling)", replay)
+                # (not a clause of the property; with the library's default tolerances it would still be worth a
+                #  look.  With a tie tolerance below the rounding noise exact ties are missed and Lemke's method
+                #  can cycle -- counted only.)
+                if tols is None:
+                    ctx.spec_fail("iteration_limit", "10^6 iterations exhausted (cycling) at default tolerances",
+                                  replay)
+                else:
+                    ctx.count("nondefault-tol:cycling-10^6-iterations")
+            # completeness clauses: judged at the library's default tolerances only.  A user-supplied tie
+            # tolerance below the rounding noise of the ratios (1e-15) defeats the lexicographic rule (exact ties
+            # are not recognised) and the run may end on a ray at a degenerate vertex; such runs are counted.
+            dflt_run = tols is None
             if cls in ("pd", "p", "cop") and status != 0:
-                ctx.spec_fail("solvable_class_" + cls, "status %d on a %s matrix" % (status, cls), replay)
-            if status == 2 and cls in ("psd", "gen"):
+                if dflt_run:
+                    ctx.spec_fail("solvable_class_" + cls, "status %d on a %s matrix" % (status, cls), replay)
+                else:
+                    ctx.count("nondefault-tol:status-%d-on-%s" % (status, cls))
+            if status == 2 and cls in ("psd", "gen") and n > 6:
+                ctx.count("ray:n>6:not-enumerated")
+            if status == 2 and cls in ("psd", "gen") and n <= 6:
                 solv, how = lcp_solvable(Mq, qq)
                 ctx.count("ray:%s:%s:%s" % (cls, "solvable" if solv else "unsolvable", how))
                 if cls == "psd" and solv:
-                    ctx.spec_fail("psd_ray_but_solvable", "status 2 on a PSD matrix although a solution exists", replay)
+                    if dflt_run:
+                        ctx.spec_fail("psd_ray_but_solvable",
+                                      "status 2 on a PSD matrix although a solution exists", replay)
+                    else:
+                        ctx.count("nondefault-tol:psd-ray-but-solvable")
             if status == 0 and cls == "psd":
                 ctx.count("psd:solved")
         else:
             ctx.count("max_iter=%d" % mi)
 
+    # ---- out-of-domain covering vectors (d has zero / negative entries: documented as "must be strictly
+    # positive", not checked by the code): no exception path exists; the Float instance must still follow the
+    # code, bit for bit, NaNs compared as NaNs.  No spec (outside the property's quantifier).
+    def cmp_nan(mo, impl):
+        a, b = parse_out(mo), parse_out(impl)
+        for k in ("success", "status", "num_iter", "basis"):
+            if a[k] != b[k]:
+                return "%s differs" % k
+        za, zb = a["z"].split(","), b["z"].split(",")
+        if len(za) != len(zb):
+            return "length of z differs"
+        for u, v in zip(za, zb):
+            if u != v:
+                fu, fv = _unfx(u), _unfx(v)
+                if not (fu != fu and fv != fv):
+                    return "z bits differ"
+        return None
+
+    for _ in range(ctx.n(60, 1500)):
+        n = rng.choice([1, 2, 3, 4, 5])
+        cls = rng.choice(classes)
+        Mx = np.ascontiguousarray(gen_matrix(rng, n, cls, "int"), dtype=float)
+        d = np.array([float(rng.choice([0, 0, -1, 1, 2, -2])) for _ in range(n)])
+        q, qmode = gen_q(rng, n, np.ones(n), "int")
+        mi = rng.choice([None, None, 50, 3])
+        base = "n=%d M=%s q=%s d=%s maxiter=%d" % (n, fxm(Mx), fxs(q), fxs(d), 200 if mi is None else mi)
+        line = "C11 lemkef %s tolpiv=%s toldiff=%s" % (base, fx(DEF_TOLS[0]), fx(DEF_TOLS[1]))
+        try:
+            with np.errstate(all="ignore"):
+                res, basis = call_code(lcp_lemke, PivOptions, Mx, q, d, 200 if mi is None else mi, None)
+        except ZeroDivisionError:
+            # Numba's python error model: q[i]/d[i] with d[i] == 0
+            ctx.count("bad-d:ZeroDivisionError")
+            cases.append(Case(line, "ERR:ZeroDivisionError", tag="lemkef-bad-d"))
+            cases.append(Case(line.replace("C11 lemkef", "C11 lemke"), "ERR:ZeroDivisionError", tag="lemke-bad-d"))
+            continue
+        ctx.count("bad-d:status=%d" % int(res.status))
+        if not np.all(np.isfinite(res.z)):
+            ctx.count("bad-d:non-finite-z")
+        cases.append(Case(line, canon(res, basis, fxs), nontrivial=bool((q < 0).any()), cmp=cmp_nan,
+                          tag="lemkef-bad-d"))
+
+    # malformed requests must be rejected by the model driver, never answered with a default
+    for bad in ["C11 lemke n=2 M=1,0;0,1 q=-1 d=1,1 maxiter=5 tolpiv=0 toldiff=0",
+                "C11 lemke n=0 M=- q=- d=- maxiter=5 tolpiv=0 toldiff=0",
+                "C11 lemkef n=2 M=1,0;0,1 q=-1,2 d=1,1 maxiter=5",
+                "C11 nosuchop n=1"]:
+        out = ctx.driver([bad])[0]
+        ctx.count("malformed-request:" + out)
+        if out != "bad-op":
+            ctx.mismatches.append({"request": bad, "code": "bad-op", "model": out, "why": "malformed request answered"})
+
     ctx.run_cases(cases)
+    nf = sum(1 for c in cases if c.tag in ("lemkef", "lemkef-bad-d", "firstrowf"))
+    bad = sum(1 for m in ctx.mismatches if str(m.get("request", "")).split(" ")[1:2] in (["lemkef"], ["firstrowf"]))
+    ctx.extra["trace_fidelity"] = {"float_instance_cases": nf, "bit_identical": nf - bad,
+                                   "note": "model at IEEE doubles vs the Numba kernels: status, num_iter, basis and "
+                                           "the bits of z"}
